@@ -16,13 +16,14 @@ structure Env where
   fl    : List ((Nat × Nat) × Option Nat) := []
   vf    : List ((Nat × Nat) × VRes) := []
   gb    : List Nat := []
+  gt    : List ((Nat × Nat) × Bool) := []   -- ground truth: filter omits an output script of the block
   cpl   : List (Nat × List Nat) := []
   evs   : List CpEv := []
 
 def Env.H (e : Env) : FHash → Hdr → Hdr :=
   fun f p => (e.htab.get? (f, p)).getD (1000000000 + f * 100003 + p)
 
-def Env.clearRound (e : Env) : Env := { e with resps := [], fl := [], vf := [], gb := [], cpl := [], evs := [] }
+def Env.clearRound (e : Env) : Env := { e with resps := [], fl := [], vf := [], gb := [], gt := [], cpl := [], evs := [] }
 
 def optNat (s : String) : Option Nat := if s == "-" then none else s.toNat?
 
@@ -150,6 +151,16 @@ def runCase : CaseFn := fun c => Id.run do
     | ["vf", h, f, r] =>
       e := { e with vf := e.vf ++ [((nat! f, nat! h), if r == "b" then VRes.bad else VRes.ok (nat! r))] }
     | ["gb", h] => e := { e with gb := nat! h :: e.gb }
+    | ["gt", h, f, r] =>
+      e := { e with gt := e.gt ++ [((nat! f, nat! h), r == "o")] }
+      -- the verdict of the real VerifyBasicBlockFilter (vf row) against the ground truth
+      match e.vf.find? (fun x => x.1 == (nat! f, nat! h)) with
+      | some (_, v) =>
+        if r == "o" && v != VRes.bad then
+          out := out.push s!"ORACLE-FAIL C03 case {c.num} line {ln}: shape=verify-accepts-omitting-filter VerifyBasicBlockFilter accepted filter {f} for the block at height {h} although it omits an output script of that block :: {line}"
+        if r == "k" && v == VRes.bad then
+          out := out.push s!"ORACLE-FAIL C03 case {c.num} line {ln}: shape=verify-rejects-complete-filter VerifyBasicBlockFilter rejected filter {f} for the block at height {h} although it contains every output script :: {line}"
+      | none => pure ()
     | ["hard", h, x] => e := { e with hard := e.hard ++ [(nat! h, nat! x)] }
     | "cpl" :: p :: rest =>
       let (l, _) := bracket rest
@@ -253,7 +264,15 @@ def runCase : CaseFn := fun c => Id.run do
         let n := if oldBt + 1 ≤ start then 0 else stopH - start + 1
         let net := e.net 0
         let livePeers := net.peers.filter (fun p => !(e.disc && banned.contains p))
-        let r : Round := { peers := livePeers, resps := net.resps, served := net.served, verify := net.verify,
+        -- the property's "provably inconsistent" is judged from the ground truth about
+        -- each filter (does it omit an output script of the block), NOT from what the
+        -- code under test said about it
+        let gtVerify : FHash → Nat → VRes := fun f h =>
+          match e.gt.find? (fun x => x.1 == (f, h)) with
+          | some (_, true) => .bad
+          | some (_, false) => .ok 0
+          | none => net.verify f h
+        let r : Round := { peers := livePeers, resps := net.resps, served := net.served, verify := gtVerify,
                            getBlock := net.getBlock, tip := (oldFs.getLast?).getD 0, start := start, n := n,
                            truth := fun h => (e.tf.get? (chain.getD h 0)).getD 0 }
         servedLists := livePeers.filterMap (fun p => (r.msgOf p).map (·.hashes))
